@@ -133,7 +133,8 @@ theorem sil_le (ws : WS) : sil ws ≤ 2 := by unfold sil; split <;> (try split) 
     never more consumed than offered -/
 def R.OK (ws : WS) (n : Nat) : R → Prop
   | .cont ws' k => Inv ws' ∧ ws'.validity ≠ 0 ∧ k ≤ n ∧ 3 * (n - k) + sil ws' < 3 * n + sil ws
-  | .ret ws' _ k pl plen => (ws'.validity ≠ 0 → Inv ws') ∧ k ≤ n ∧ PlOK pl plen
+  | .ret ws' st k pl plen => (ws'.validity ≠ 0 → Inv ws') ∧ k ≤ n ∧ PlOK pl plen ∧
+      (0 ≤ st → sil ws' = 0 ∧ ws'.validity ≠ 0 ∧ (sil ws = 0 → 1 ≤ k))
   | .fault _ => False
 
 theorem OK_cont1 {ws ws' : WS} {n : Nat} (h : Inv ws') (hv : ws'.validity ≠ 0) (hn : 1 ≤ n) :
@@ -145,10 +146,10 @@ theorem genClose_validity (ws : WS) (c : Nat) : (genClose ws c).1.validity = ws.
   obtain ⟨r, hr⟩ := genClose_ws ws c
   rw [hr]
 
-theorem OK_err {ws : WS} (ws' : WS) {n : Nat} (code : Nat) (st : Int) (adv : Nat) (ha : adv ≤ n) :
-    R.OK ws n (errRet ws' code st adv) := by
+theorem OK_err {ws : WS} (ws' : WS) {n : Nat} (code : Nat) (st : Int) (adv : Nat) (ha : adv ≤ n)
+    (hst : st < 0 := by omega) : R.OK ws n (errRet ws' code st adv) := by
   unfold errRet
-  refine ⟨fun hv => absurd ?_ hv, ha, genClose_plok _ _⟩
+  refine ⟨fun hv => absurd ?_ hv, ha, genClose_plok _ _, fun h => by omega⟩
   rw [genClose_validity]
 
 theorem stepStart_ok {ws : WS} (h : Inv ws) (hv : ws.validity ≠ 0) (hs : ws.step = 0) (b : UInt8) {n : Nat}
@@ -329,12 +330,14 @@ namespace Mhd.WS
 /-- outcome of `decode_header_complete` / `decode_payload_complete` from a good state -/
 def R.HC (P : WS → Prop) : R → Prop
   | .cont ws' _ => Inv ws' ∧ ws'.validity ≠ 0 ∧ P ws'
-  | .ret ws' _ k pl plen => (ws'.validity ≠ 0 → Inv ws') ∧ k = 0 ∧ PlOK pl plen
+  | .ret ws' st k pl plen => (ws'.validity ≠ 0 → Inv ws') ∧ k = 0 ∧ PlOK pl plen ∧
+      (0 ≤ st → ws'.step = 0 ∧ ws'.validity ≠ 0)
   | .fault _ => False
 
-theorem HC_err (P : WS → Prop) (ws' : WS) (code : Nat) (st : Int) : R.HC P (errRet ws' code st 0) := by
+theorem HC_err (P : WS → Prop) (ws' : WS) (code : Nat) (st : Int) (hst : st < 0 := by omega) :
+    R.HC P (errRet ws' code st 0) := by
   unfold errRet
-  refine ⟨fun hv => absurd ?_ hv, rfl, genClose_plok _ _⟩
+  refine ⟨fun hv => absurd ?_ hv, rfl, genClose_plok _ _, fun h => by omega⟩
   rw [genClose_validity]
 
 theorem W_eq : W = 18446744073709551616 := by unfold W; rfl
@@ -423,7 +426,7 @@ theorem headerComplete_ok {ws : WS} (h : Inv ws) (hv : ws.validity ≠ 0) (hs : 
     have hu0 : ws.dataUtf8 = 0 := h.u8a (by omega)
     refine ⟨h.toData hs buf 0 ws.payloadSize (opcodeOf h0) hb (by omega) hpsz (fun _ => hu0) ?_, hv, Or.inl rfl⟩
     intro _; simp [hu0, givenUtf8]
-  have hmem : R.HC (fun ws' => ws'.step = 17 ∨ ws'.step = 18) (.ret ws (-3) 0 none 0) := ⟨fun _ => h, rfl, rfl⟩
+  have hmem : R.HC (fun ws' => ws'.step = 17 ∨ ws'.step = 18) (.ret ws (-3) 0 none 0) := ⟨fun _ => h, rfl, rfl, fun h => by omega⟩
   have halloc : ∀ nb, alloc ws (ws.payloadSize + 1) = some nb →
       ∃ nb', termAt nb ws.payloadSize = some nb' ∧ nb'.length = ws.payloadSize + 1 := by
     intro nb hnb
